@@ -37,7 +37,7 @@ pub mod solver {
 
 harnesses! {
     /// log(x, b) == x.ln() / b.ln() and log10(x) == x.ln() / LN_10, bit for bit (ln an arbitrary fixed function)
-    #[kani::solver(cvc5)] #[kani::stub(TwoFloat::ln, super::c10::ack_ln)]
+    #[kani::solver(kissat)] #[kani::stub(TwoFloat::ln, super::c10::ack_ln)] #[kani::stub(<&TwoFloat as core::ops::Div<&TwoFloat>>::div, super::c10::ack_div_tt)]
     fn log10_is_quotient() {
         let x = any_tf();
         let ln10 = TwoFloat { hi: f64::from_bits(super::c12_data::EXPECTED[23].1), lo: f64::from_bits(super::c12_data::EXPECTED[23].2) };
